@@ -56,6 +56,13 @@ def check(spec, ctx):
     with open(path) as fh:
         doc = json.load(fh)
     data = doc["data"]
+    # the same object saved a second time (same process) must give the same document
+    ctx.call(spec, f"second io.save({spec['ctype']})", io.save, obj, path, **kw)
+    with open(path) as fh:
+        again = json.load(fh)["data"]
+    if again != data:
+        keys = [k for k in sorted(set(again) | set(data)) if again.get(k) != data.get(k)]
+        ctx.fail(f"{spec['ctype']}: saving the same object twice gives different documents (differing sections: {keys})", spec, None, None, kind="second_save_differs")
     reach = graphs.walk(obj)
 
     refs = {}  # (kind, id) -> number of references
